@@ -45,6 +45,8 @@ def run(tier):
                         nontrivial=lambda b: any(s["op"] == "compact" for s in b["steps"]))
     c.sample({"behaviour_ops": [s["op"] for s in beh[0]["steps"]], "first_request": beh[0]["steps"][0].get("req")})
 
+    sm_common.transfer_leg(c, sc, [b for b in beh if b.get("alphabet") != "mcp_thin"][: (40 if quick else 600)], "transfer_c01",
+                           lambda b, r: "C01:import:%s" % r.get("what", "").replace(" ", "_"))
     exact_fit_leg(c, sc)
     sm_common.tv_traces(c, sc, 3 if quick else 40, 70 if quick else 250)
     c.assumptions += [
